@@ -266,10 +266,16 @@ def exhaustive(tier):
             overlays = [(P, P, P), (SW_BAD, P, P), (P, SW_OK, P), (C0, C0, P), (C0, P, P), (C0, C0, SW_BAD),
                         (C0, V0, C0)]
         else:
-            overlays = [(P, P, P, P)]
+            overlays = [(P, P, P, P), (C0, C0, P, SW_BAD)]
         k0 = len(cases)
-        for g in graphs(ids, targets):
-            for ov in overlays:
+        if n <= 3:
+            gs = graphs(ids, targets)
+        else:
+            # 4 statements: every graph among them; the dangling target only for the first statement
+            gs = itertools.chain(graphs(ids, ids),
+                                 ([(0, d0 + (DANGLING,))] + g[1:] for g in graphs(ids, ids) for d0 in [g[0][1]]))
+        for g in gs:
+            for ov in (overlays if n <= 3 or DANGLING not in g[0][1] else overlays[:1]):
                 cases.append(((0, with_kinds(g, ov)),))
         scope["1 phase, %d statements" % n] = len(cases) - k0
     # all kind vectors on 3 statements over a few graph shapes
@@ -278,18 +284,12 @@ def exhaustive(tier):
               [(0, ()), (1, (DANGLING,)), (2, ())]):
         for ov in itertools.product([P, SW_OK, SW_BAD, C0, V0], repeat=3):
             cases.append(((0, with_kinds(g, ov)),))
-    if tier != "quick":
-        # 4 statements, no dangling target, with kinds
-        for g in graphs(list(range(4)), list(range(4))):
-            for ov in [(C0, C0, P, P), (SW_BAD, P, P, C0), (P, SW_OK, C0, C0)]:
-                cases.append(((0, with_kinds(g, ov)),))
     scope["1 phase, kind vectors / extra"] = len(cases) - k0
     # --- two phases: phase 0 has ids 0.., phase 1 has ids 10..
-    sizes = [(1, 1), (1, 2), (2, 1), (2, 2)] if tier == "quick" else [(1, 1), (1, 2), (2, 1), (2, 2), (3, 1), (1, 3),
-                                                                      (3, 2)]
+    sizes = [(1, 1), (1, 2), (2, 1), (2, 2)] if tier == "quick" else [(1, 1), (1, 2), (2, 1), (2, 2), (3, 1), (1, 3)]
     for a, b in sizes:
         ids0, ids1 = list(range(a)), list(range(10, 10 + b))
-        t0 = ids0 + [10] + ([DANGLING] if a + b <= 3 or tier != "quick" else [])
+        t0 = ids0 + [10] + ([DANGLING] if a + b <= 3 or (tier != "quick" and a <= 2) else [])
         t1 = ids1 + [0] + ([DANGLING] if a + b <= 3 else [])
         if a + b <= 3:
             ovs = [((), ()), ((("switch", 1),), ()), ((SW_BAD,), (C0,)), ((C0,), (C0, C0)), ((C0, C0), (C0,))]
